@@ -268,6 +268,9 @@ def optimize_acqf_discrete(
     # TODO: Another batch selection method might be updating model at each step.
     # Either a fantasy update or a full update, i.e., adding samples along the way.
 
+    # A batch cannot contain more points than there are choices.
+    q = min(q, len(choices))
+
     chosen = 0
     while chosen < q:
         acq_values = acq(choices)
@@ -308,7 +311,12 @@ def optimize_decoupled_acqf_discrete(
         curr_candidate_list, curr_acq_values = optimize_acqf_discrete(acq, q, choices)
         candidate_list = np.concatenate([candidate_list, curr_candidate_list], axis=0)
         acq_values = np.concatenate([acq_values, curr_acq_values], axis=0)
-        eval_indices = np.concatenate([eval_indices, np.full(q, fill_value=eval_i)], axis=0)
+        eval_indices = np.concatenate(
+            [eval_indices, np.full(len(curr_acq_values), fill_value=eval_i)], axis=0
+        )
+
+    # A batch cannot contain more (point, objective) pairs than there are candidates.
+    q = min(q, len(acq_values))
 
     # Find indices of the highest q elements
     indices = np.argpartition(acq_values, -q)[-q:]
